@@ -273,7 +273,13 @@ func (c07) Gen(tier string, seed int64, emit0 func([]Ev)) {
 			if st == nil {
 				st = [][]int{}
 			}
-			emit([]Ev{{"op": "pat", "carrier": "stream", "abs": patEv(p), "stream": st, "tail": tail, "reader": c07Readers[r.Intn(len(c07Readers))]}})
+			lead, leadN := []int{}, 0
+			if n%9 == 4 {
+				// the table far into the stream (or not there at all): tens of thousands of packets of another PID first
+				o := plainOther(r)
+				lead, leadN = B(o[:]), []int{5000, 70000, 100001, 300000}[r.Intn(4)]
+			}
+			emit([]Ev{{"op": "pat", "carrier": "stream", "abs": patEv(p), "stream": st, "tail": tail, "reader": c07Readers[r.Intn(len(c07Readers))], "lead": lead, "lead_n": leadN}})
 		}
 		// sections longer than one packet can carry (up to 253 entries in 1021 bytes), as payload bytes
 		for _, n := range []int{43, 44, 63, 64, 65, 127, 128, 129, 200, 252, 253} {
@@ -360,7 +366,11 @@ func (c07) Exec(h []Ev) []Ev {
 						buf.Write(GB(x))
 					}
 					buf.Write(make([]byte, GI(e["tail"])))
-					pat, err := psi.ReadPAT(c07Reader(GS(e["reader"]), buf.Bytes()))
+					data := buf.Bytes()
+					if n := GI0(e["lead_n"]); n > 0 { // one packet of another PID, n times, in front (described, not transmitted)
+						data = append(bytes.Repeat(GB(e["lead"]), n), data...)
+					}
+					pat, err := psi.ReadPAT(c07Reader(GS(e["reader"]), data))
 					c07Observe(e, pat, err)
 					if err == nil && pat != nil {
 						defer held.hold(func() string { t := Ev{}; c07Observe(t, pat, nil); return jsonOf(t) })
